@@ -1,4 +1,113 @@
-(* C16 extension J: theorems about the full micro-step machine of the dictionary (Dict/MicroFull.v). *)
+(* C16 extension J: theorems about the full micro-step machine of the dictionary (Dict/MicroFull.v: put_if_absent, get,
+   put = qt_lf_force_list_insert, delete = get-then-remove with mark CAS / unlink CAS / qpool_free, the helping branch of
+   qt_lf_list_find, the pool's LIFO free list).  [frun pol sof keq s sched]: the machine under policy pol (pol_code = the
+   code as it is; pol_patch = atomic delete + unlinked nodes not recycled, docs/proposed_fixes/C16-delete-atomic-no-recycle.diff)
+   runs the schedule sched (one task id per machine step).  [lin m h]: the history h (completed operations with the positions of
+   their invocation and response) has a linearisation w.r.t. the finite-map specification starting from the map m. *)
 From Coq Require Import List NArith Bool Arith.
-From QV Require Import Dict.Micro Dict.MicroFull Dict.MicroFullHist.
+From QV Require Import Dict.Micro Dict.MicroFull Dict.MicroFullHist Dict.MicroFullProofs Dict.MicroFullWitness
+                       Dict.MicroFullBounded Dict.MicroFullBoundedAll Dict.MicroFullNoDel Dict.MicroFullGrants.
 Import ListNotations.
+
+(* ---------- (a) the three open findings as refutations: witnesses = the corpus schedules replayed on the real code ---------- *)
+
+(* replacing put loses an insert: (i) put(2,102) || put(2,107) || put_if_absent(1,113); get(1) on the empty dictionary;
+   (ii) ONE put(2,102) on the list {2} || put_if_absent(1,113); get(1) -- the lost insert is of ANOTHER key *)
+Theorem dict_replacing_put_loses_insert_refuted :
+  (exists sched, let s := frun pol_code wit_sof N.eqb (finit wit_nodes0 [] wit_put_progs) sched in
+                 fdone s = true /\ ~ lin (amap_of wit_nodes0) (hist_of s)) /\
+  (exists sched, let s := frun pol_code wit_sof N.eqb (finit wit_nodes3 [] wit_put_other_progs) sched in
+                 fdone s = true /\ ~ lin (amap_of wit_nodes3) (hist_of s)).
+Proof. exact (conj (wit_refutes _ _ _ _ wit_put_bad) (wit_refutes _ _ _ _ wit_put_other_bad)). Qed.
+Print Assumptions dict_replacing_put_loses_insert_refuted.
+
+(* delete is not atomic (get, then remove): delete(1) || put_if_absent(1,110); get(1) on the empty dictionary -- under the code's
+   policy AND with recycling switched off: the finding is due to the two separate lookups alone *)
+Theorem dict_delete_not_atomic_refuted :
+  (exists sched, let s := frun pol_code wit_sof N.eqb (finit wit_nodes0 [] wit_del_progs) sched in
+                 fdone s = true /\ ~ lin (amap_of wit_nodes0) (hist_of s)) /\
+  (exists sched, let s := frun pol_nonatomic_norecycle wit_sof N.eqb (finit wit_nodes0 [] wit_del_progs) sched in
+                 fdone s = true /\ ~ lin (amap_of wit_nodes0) (hist_of s)).
+Proof. exact (conj (wit_refutes _ _ _ _ wit_del_bad) (wit_refutes _ _ _ _ wit_del_bad_norecycle)). Qed.
+Print Assumptions dict_delete_not_atomic_refuted.
+
+(* a CAS on a recycled node: list {3,1}; delete(1); put_if_absent(3,120) || put_if_absent(2,115); get(2) -- under the code's policy
+   AND with an atomic delete: the finding is due to the immediate recycling alone *)
+Theorem dict_recycled_node_cas_refuted :
+  (exists sched, let s := frun pol_code wit_sof N.eqb (finit wit_nodes2 [] wit_rec_progs) sched in
+                 fdone s = true /\ ~ lin (amap_of wit_nodes2) (hist_of s)) /\
+  (exists sched, let s := frun pol_atomic_recycle wit_sof N.eqb (finit wit_nodes2 [] wit_rec_progs) sched in
+                 fdone s = true /\ ~ lin (amap_of wit_nodes2) (hist_of s)).
+Proof. exact (conj (wit_refutes _ _ _ _ wit_rec_bad) (wit_refutes _ _ _ _ wit_rec_bad_atomic)). Qed.
+Print Assumptions dict_recycled_node_cas_refuted.
+
+(* ---------- (b) the positive side ---------- *)
+
+(* programs without delete, EVERY schedule, any number of tasks, any policy, any hash: no node is ever marked and no task ever
+   stands at the helping CAS, the mark CAS or the unlink CAS (the only places where a linked node goes back to the pool): the
+   replacing-put finding involves neither marks nor recycling *)
+Theorem dict_no_delete_never_marks_or_reclaims :
+  forall pol sof keq nodes progs sched,
+    (forall p o, In p progs -> In o p -> nodel_op o) ->
+    let s := frun pol sof keq (finit nodes [] progs) sched in
+    (forall i, fmark (fs_heap s) i = false) /\
+    (forall t, match fpc_of s t with
+               | QAtHelpCas _ _ _ _ | QAtMarkCas _ _ _ _ | QAtUnlinkCas _ _ _ _ => False
+               | _ => True
+               end).
+Proof. exact no_delete_never_marks. Qed.
+Print Assumptions dict_no_delete_never_marks_or_reclaims.
+
+(* PARTIAL (bounded family, unbounded schedules): the code as it is, {put_if_absent, get} and put on a key that is absent and
+   that nobody else puts: for each of the 12 configurations of famI (3 tasks x 1 operation on the list {1}; 2 tasks x 2
+   operations on the collision chain {3,1}) EVERY schedule of grants gives a linearizable history *)
+Theorem dict_linearizable_without_delete_and_replace_bounded_partial :
+  forall c, In c famI -> forall g,
+    let s := frun_grants pol_code wit_sof N.eqb (cfg_init c) g in
+    fdone s = true -> lin (amap_of (fst c)) (hist_of s).
+Proof. exact code_insert_sp_all. Qed.
+Print Assumptions dict_linearizable_without_delete_and_replace_bounded_partial.
+
+(* PARTIAL (bounded family, unbounded schedules): under the policy of the proposed patch (atomic delete, unlinked nodes not
+   recycled) {delete, put_if_absent, get}: for each of the 60 configurations of patch_family_sp -- among them the configurations
+   of the delete witnesses above -- EVERY schedule of grants gives a linearizable history *)
+Theorem dict_delete_linearizable_if_no_recycling_bounded_partial :
+  forall c, In c patch_family_sp -> forall g,
+    let s := frun_grants pol_patch wit_sof N.eqb (cfg_init c) g in
+    fdone s = true -> lin (amap_of (fst c)) (hist_of s).
+Proof. exact patch_sp_all. Qed.
+Print Assumptions dict_delete_linearizable_if_no_recycling_bounded_partial.
+
+(* the same at the granularity of single machine steps (every access to shared memory is a possible task switch), for the 7
+   two-task configurations of patch_family_steps *)
+Theorem dict_delete_linearizable_if_no_recycling_steps_bounded_partial :
+  forall c, In c patch_family_steps -> forall sched,
+    let s := frun pol_patch wit_sof N.eqb (cfg_init c) sched in
+    fdone s = true -> lin (amap_of (fst c)) (hist_of s).
+Proof. exact patch_steps_all. Qed.
+Print Assumptions dict_delete_linearizable_if_no_recycling_steps_bounded_partial.
+
+(* ---------- the tools are sound: the checker the tie uses decides lin; the explorers cover every schedule ---------- *)
+Theorem dict_lin_checker_decides :
+  forall m h, linearizable_b m h = true <-> lin m h.
+Proof. exact linb_iff. Qed.
+Print Assumptions dict_lin_checker_decides.
+
+Theorem dict_explore_covers_every_step_schedule :
+  forall pol sof keq chk sched fuel s,
+    explore pol sof keq chk fuel s = true -> fdone (frun pol sof keq s sched) = true -> chk (frun pol sof keq s sched) = true.
+Proof. exact explore_sound. Qed.
+Print Assumptions dict_explore_covers_every_step_schedule.
+
+Theorem dict_explore_covers_every_grant_schedule :
+  forall pol sof keq chk g fuel s,
+    explore_sp pol sof keq chk fuel s = true -> fdone (frun_grants pol sof keq s g) = true -> chk (frun_grants pol sof keq s g) = true.
+Proof. exact explore_sp_sound. Qed.
+Print Assumptions dict_explore_covers_every_grant_schedule.
+
+(* a schedule of grants (task runs to its next schedule point of the harness) is a schedule of machine steps: the grant-level
+   theorems above speak about a subset of the step-level schedules *)
+Theorem dict_grant_schedules_are_step_schedules :
+  forall pol sof keq g s, exists sched, frun_grants pol sof keq s g = frun pol sof keq s sched.
+Proof. exact frun_grants_is_frun. Qed.
+Print Assumptions dict_grant_schedules_are_step_schedules.
